@@ -35,6 +35,7 @@ type loadFmt struct {
 	Fmt     string
 	Gzip    bool
 	Uniform bool // the encoder needs records of one type with a plain key
+	Handle  bool // not a raw upload: both lakes are loaded through lake/api.Interface.Load (remote.Load pipes ZNG)
 }
 
 var loadFmts = []loadFmt{
@@ -53,6 +54,7 @@ var loadFmts = []loadFmt{
 	{Name: "tsv", Enc: "tsv", CT: api.MediaTypeTSV, Fmt: "tsv", Uniform: true},
 	{Name: "zson+gzip", Enc: "zson", CT: api.MediaTypeZSON, Fmt: "zson", Gzip: true},
 	{Name: "auto(*/*):json+gzip", Enc: "json", CT: api.MediaTypeAny, Fmt: "", Gzip: true},
+	{Name: "handle(api.Load)", Enc: "zson", Fmt: "zson", Handle: true},
 	{Name: "zng;params", Enc: "zng", CT: api.MediaTypeZNG + "; charset=binary", Fmt: "zng"},
 }
 
